@@ -514,7 +514,8 @@ class EventBus:
         # Automatically set event_parent_id from context if not already set
         if event.event_parent_id is None:
             current_event: 'BaseEvent[Any] | None' = _current_event_context.get()
-            if current_event is not None:
+            # a forwarding handler dispatches the event it is handling: that must not make the event its own parent
+            if current_event is not None and current_event.event_id != event.event_id:
                 event.event_parent_id = current_event.event_id
 
         # Track child events - if we're inside a handler, add this event to the handler's event_children list
